@@ -34,10 +34,11 @@ RULE = ("plan = 2..6 PELs (some damaged) + plugin population with per-call fault
 COMPONENTS = {"real": ["pel.peltool.peltool.main() / parsePEL in-process, all module-level caches (userDataParsers, srcParsers, "
                        "calloutParsers, osrcParsers, componentIDs, registry)", "real subprocess interpreter for a sample of plans"],
               "stub": ["third-party parser modules (fake, pure functions of their arguments)", "pel_registry (fake)",
-                       "the 'fresh process': purge + re-import of the module set inside the same interpreter"]}
+                       "the 'fresh process': purge + re-import of the module set inside the same interpreter",
+                       "clock / interval timer (virtual: signal.alarm and setitimer interposed, slow-storage ticks per I/O event)"]}
 ASSUMPTIONS = ["a pristine module set (purge + import) is a faithful stand-in for a fresh interpreter; validated against real subprocesses on plans without fake plugins",
                "stderr is compared only for absence of tracebacks (the one-shot 'Failed to find PEL creators components config file' line is legitimately history dependent and not part of the document)"]
-PROBES = ["cut_multibyte_text", "op:f", "op:a", "op:l", "op:bmc", "op:pp", "op:j", "damaged_before_good", "fault_before_same_module", "skip_then_enable",
+PROBES = ["slow_storage", "timer_armed", "timer_fired", "cut_multibyte_text", "op:f", "op:a", "op:l", "op:bmc", "op:pp", "op:j", "damaged_before_good", "fault_before_same_module", "skip_then_enable",
           "registry", "subprocess_crosschecks", "repeat_same_pel"]
 
 
@@ -93,6 +94,9 @@ def gen_plan(rng, tier, run):
         ops.append(op)
     registry = common.gen_registry(rng, [p["recipe"] for p in pels]) if rng.random() < 0.4 else None
     return {"pels": pels, "plugins": plugins, "ops": ops, "registry": registry,
+            # slow storage: virtual seconds that pass per I/O event (a timer armed by the code under test and not
+            # disarmed is delivered once its deadline is reached - by a later decode of the same process)
+            "tick": rng.choice([0, 0, 0, 0, 0.5, 6.0]),
             "subprocess": bare and registry is None and rng.random() < 0.6}
 
 
@@ -180,6 +184,9 @@ def execute(plan):
     skipped_seen = False
     with World(plugins=plan["plugins"], registry=plan["registry"]) as w:
         w.long_opts = bool(plan.get("long_opts"))
+        w.fs.tick = float(plan.get("tick") or 0)
+        if w.fs.tick:
+            bump("slow_storage")
         for p in plan["pels"]:
             w.put("D/" + p["name"], datas[p["name"]])
         host = w.host
@@ -304,6 +311,8 @@ def execute(plan):
                 bump("subprocess_crosschecks")
                 if cp.stdout != want["stdout"] or cp.returncode != (want["exit"] if isinstance(want["exit"], int) else 1):
                     raise world.HarnessError("pristine module set disagrees with a real interpreter on %s: rc %s vs %s" % (argv, cp.returncode, want["exit"]))
+    for k, v in w.fs.timer_stats.items():
+        bump("timer_" + k, v)
     sample = {"pels": [(p["name"], "damaged" if p.get("junk") else "ok") for p in plan["pels"]],
               "plugins": {m: s.get("import", "ok") for m, s in plan["plugins"].items()},
               "history": [argv_of(plan, o) or ["parsePEL", plan["pels"][o["pel"]]["name"]] + o["flags"] for o in plan["ops"]], "trace": trace}
@@ -340,6 +349,10 @@ def shrink_candidates(plan, violation):
     if plan["registry"]:
         c = P()
         c["registry"] = None
+        yield c
+    if plan.get("tick"):
+        c = P()
+        c["tick"] = 0
         yield c
     for i, o in enumerate(plan["ops"]):
         if o["flags"]:
